@@ -30,6 +30,6 @@ MJ(m) == SeqOf({[p |-> x.p, pid |-> x.pid, src |-> x.c.src, cls |-> x.c.cls, ll 
 
 EmitWalk == \/ act.k = "init"
             \/ PrintT(ToJson([lvl |-> TLCGet("level"), op |-> act, mirror |-> MJ(s.mirror),
-                              chan |-> Len(s.chan), pend |-> (s.reach = {} /\ s.unrch = {}),
+                              chan |-> Len(s.chan), pend |-> (s.reach = {} /\ s.unrch = {} /\ s.buf = {}),
                               qmirror |-> MJ(DrainAll(s).mirror), fresh |-> MJ(FreshDump(s))]))
 =============================================================================
